@@ -176,7 +176,21 @@ def cmd_refactor(args):
         if os.path.exists(sc):
             rc, out = run_demo(tree, sc)
             meta["selfcheck_with_change"] = {"rc": rc, "tail": out[-200:]}
-        props = args.props.split(",") if args.props else ALL
+        if args.props == "touched":
+            # the checks whose property is anchored in (or routed through) a file the patch touches
+            rel = {"bridge.py": "C05,C06,C07,C17,C19", "api/__init__.py": "C01,C02,C03,C08,C09,C10,C11,C16,C18,C19",
+                   "api/messages.py": "C03,C08,C09,C10,C16", "api/remotes.py": "C01,C03,C15,C16", "api/packets.py": "C01,C02,C03,C09,C16",
+                   "device/tools.py": "C01,C02,C03,C04,C05,C08,C09", "device/__init__.py": "C05,C07,C08,C19",
+                   "schedule/tools.py": "C02,C10,C11,C12,C13,C14", "schedule/parser.py": "C10,C13,C14", "schedule/__init__.py": "C02,C10,C12,C13"}
+            touched = [ln.split(" b/")[-1].strip() for ln in open(patch) if ln.startswith("diff --git")]
+            want = set()
+            for t in touched:
+                for k, v in rel.items():
+                    if t.endswith("aioswitcher/" + k):
+                        want.update(v.split(","))
+            props = sorted(want) or ALL
+        else:
+            props = args.props.split(",") if args.props else ALL
         for p in props:
             res = run_check(tree, p, "quick")
             meta.setdefault("results", {})[f"{p}/quick"] = res
